@@ -343,7 +343,7 @@ class VTCase(unittest.TestCase):
 
 def make_test_class(t, modname, layers):
     name = t['n']
-    mname = 'test_' + name
+    mname = 'test_' + t.get('mn', name)
 
     def method(self):
         return self._body()
